@@ -111,7 +111,7 @@ def expected(method, fixed, tail):
 
 # malformed tokens include characters that are special to str.format / % formatting / regexes / paths
 BAD_INTS = ["", "#", "$", "None", "x", "1.5", "0x10", "--1", "1__0", "_1", "1_", "+", "-", "1e3", "{0}", "{", "%d", "1}"]
-BAD_MODES = ["X", "r", "m", "1", "Q#", "*", "{M}", "{", "}", "%s", "{0}", "\\"]
+BAD_MODES = ["X", "r", "m", "1", "Q#", "*", "{M}", "{", "}", "%s", "{0}", "\\", "HM", "XR", "rM", "ZRMDC", "1M", "xC", "QD", "-R", "HMX", "xRMDC"]   # DESIGN I-2: unknown = FIRST character not in RMDC
 BAD_PLATS = ["X", "a", "AG", "GG", "1", "##", "{A}", "{}", "%s", "}{"]
 BAD_MARKERS = ["S", "I", "M", "P", "B", "s", "S1", "", "#", "{S}", "{", "}", "{0}", "%s", "%(S)s", "S}", "\\S"]
 
